@@ -794,7 +794,7 @@ func (r *runner) runInvite() {
 		KeyID:             J.keyID,
 		SigningKey:        J.priv,
 		EventTime:         time.Now(),
-		MembershipQuerier: membershipQuerier{"none", false},
+		MembershipQuerier: membershipQuerier{mem: "none"},
 		StateQuerier:      stateQuerier{jw},
 		UserIDQuerier:     userIDQuerier("ok"),
 		SenderIDQuerier: func(roomID spec.RoomID, userID spec.UserID) (*spec.SenderID, error) {
